@@ -41,6 +41,7 @@ def run(prop, gi, g, tier, known, do_replay):
         T["harnesses"] += 1
         T["checks"] += hr.total
         T["passed"] += hr.passed + hr.unreachable + hr.covers_sat
+        T["nontrivial"] = T.get("nontrivial", 0) + hr.passed + hr.covers_sat
         T["covers"] += hr.covers_sat
         T["vccs"] += hr.vccs
         T["symex"] += hr.symex_s
